@@ -37,6 +37,9 @@ def cases(tier, seed):
         out.append({"name": "timeout.sweep/client/%s|timer" % vop, "kind": "sweep", "victim": "client", "trigger": vop,
                     "second": "timer", "cap": cap})
     out.append({"name": "timeout.f_timeout/recreate", "kind": "recreate"})
+    for form in ("executor",):
+        for what in ("resubmit", "submit_plain"):
+            out.append({"name": "timeout.callback/%s/%s" % (form, what), "kind": "tcallback", "form": form, "what": what})
     for form in ("executor", "f_timeout"):
         for cost in (0.25, 0.6, 3.0):
             for first in ("running", "refusing", "pending"):
@@ -330,6 +333,43 @@ def run_recreate(case, res):
             end(ctx)
 
 
+def run_tcallback(case, res):
+    """A done-callback of a future that timed out uses the executor again (re-submits with a new timeout): it runs on
+    the timeout thread, inside the cancel the thread has just delivered.  Later deadlines are still served."""
+    begin("vt")
+    ctx = Ctx()
+    try:
+        w = TW(ctx, "executor", default=50.0)
+        a = w.submit(1.0)
+        b = w.submit(2.0)
+        extra = []
+
+        def cb(_f):
+            if case["what"].startswith("resubmit"):
+                extra.append(w.submit(1.0, who="cb"))
+            elif case["what"] == "submit_plain":
+                extra.append(w.submit(None, who="cb"))
+            if "cancel_other" in case["what"]:
+                b["fut"].cancel()
+        a["fut"].add_done_callback(cb)
+        try:
+            instr.advance(10.0)
+        except instr.DeadlockBroken:
+            pass
+        res.execs += 1
+        check_common(res, deadlock_suffix="@timeout.callback/%s" % case["what"])
+        if not LM.deadlocks:
+            if not extra:
+                res.inconclusive.append("%s: the callback never ran" % case["name"])
+            if "cancel_other" in case["what"]:
+                b["user_cancel_at"], b["user_cancel_ret"] = w.t0 + 1.0, True
+            if w.judge(res, case["name"]):
+                res.key("tcallback", case["what"])
+        res.sample({"callback_does": case["what"], "cancel_arrivals": [(e[4]["tag"], round(e[1] - w.t0, 3)) for e in LOG.select("spy.cancel")]}, limit=1)
+    finally:
+        end(ctx)
+
+
 def run_slowcancel(case, res):
     """The cancel() of an overdue future takes time (and may be refused); futures with later deadlines are still
     cancelled at their own deadline, not later by the time the earlier cancel took."""
@@ -362,6 +402,8 @@ def run_slowcancel(case, res):
 def run_case(case, res):
     if case["kind"] == "slowcancel":
         return run_slowcancel(case, res)
+    if case["kind"] == "tcallback":
+        return run_tcallback(case, res)
     if case["kind"] == "gen":
         run_gen(case, res)
     elif case["kind"] == "recreate":
